@@ -2,8 +2,8 @@
 Helper lemmas for LC/Props/C03Lines.lean: the line counter of the rune scan.
 
 Invariant over `scanRunes = rs.foldl step {}` with `k` = number of newline runes consumed:
-`Core k s` : `s.line = L + 1`, `L + pend s ≤ k` (a set deferredEOL / deferredWord flag is a
-newline that was consumed but not yet credited to `line`), and every token / Copyright line
+`Core k s` : `s.line = L + 1`, `L + pend s ≤ k` (a set deferredEOL flag and every unit of
+deferredLines is a newline that was consumed but not yet credited to `line`), and every token / Copyright line
 already in `s.doc` lies in `[1, L]`, token lines non-decreasing.
 Core Lean only.
 -/
@@ -96,10 +96,10 @@ theorem DocLe.appendLine {E : Env} {normalize : Bool} {d : Doc} {B B' line : Nat
 /-! ### the scan invariant -/
 
 /-- newlines consumed but not yet credited to `line`: one for a pending hyphenated line break
-(`deferredEOL`) and one for a joined word whose line break is still owed (`deferredWord`); both can
-be set at once (`a-\nb-\n`), and a newline taken with `deferredWord` set credits it (line + 2). -/
+(`deferredEOL`) and one for every line break already joined into the word in progress
+(`deferredLines`); a plain newline or the end of the word credits all of them at once. -/
 def pend (s : State) : Nat :=
-  (if s.deferredEOL = true then 1 else 0) + (if s.deferredWord = true then 1 else 0)
+  (if s.deferredEOL = true then 1 else 0) + s.deferredLines
 
 def Core (k : Nat) (s : State) : Prop :=
   ∃ L, s.line = L + 1 ∧ L + pend s ≤ k ∧ DocLe s.doc L
@@ -126,15 +126,14 @@ theorem Core.step_other {E : Env} {normalize : Bool} {k : Nat} {s : State} {r : 
         apply Core.startOrSkip
         split
         · rename_i hW
-          have hp : 1 ≤ pend s := by simp [pend, hW]
-          refine ⟨L + 1, by simp [hL], ?_, ?_⟩
+          refine ⟨L + s.deferredLines, by simp only [hL]; omega, ?_, ?_⟩
           · simp only [pend] at hk ⊢
-            simp only [hE, hW] at hk
+            simp only [hE] at hk
             simp only [hE]
             simp at hk ⊢
             omega
           · simp only [hL]
-            exact hd.appendLine (by omega) (by omega) (by omega) (fun _ => Nat.le_refl _)
+            exact hd.appendLine (by omega) (by omega) (by omega) (fun _ => by omega)
         · exact ⟨L, hL, by simpa [pend] using hk, hd⟩
     · have key : ∀ s1 : State, Core k s1 → Core k (match E.punct r with
           | some rep => { s1 with obuf := s1.obuf ++ rep.map E.toLower }
@@ -150,12 +149,12 @@ theorem Core.step_other {E : Env} {normalize : Bool} {k : Nat} {s : State} {r : 
         simp only [pend] at hk ⊢
         simp only [hE] at hk
         simp at hk ⊢
-        split at hk <;> omega
+        omega
       · exact ⟨L, hL, hk, hd⟩
 
 /-- a newline rune: one more newline consumed, and afterwards either both buffers are empty
-or the line counter did not move.  (A newline taken with `deferredWord` set moves the line
-counter by 2 and clears the flag, so `L + pend` still grows by exactly one.) -/
+or the line counter did not move.  (A plain newline credits every pending line break and clears
+`deferredEOL` / `deferredLines`, so `L + pend` still grows by exactly one.) -/
 theorem Core.step_nl {E : Env} {normalize : Bool} {k : Nat} {s : State}
     (h : Core k s) :
     Core (k + 1) (step E normalize s nl) ∧
@@ -170,7 +169,8 @@ theorem Core.step_nl {E : Env} {normalize : Bool} {k : Nat} {s : State}
       simp only [if_true]
       split at hk <;> omega
     · simp only [hL]; omega
-  · refine ⟨⟨L + 1 + (if s.deferredWord = true then 1 else 0), by simp only [hL]; omega, ?_, ?_⟩, ?_⟩
+  · refine ⟨⟨L + 1 + (if s.deferredEOL = true then 1 else 0) + s.deferredLines,
+        by simp only [hL]; omega, ?_, ?_⟩, ?_⟩
     · simp only [pend] at hk ⊢
       simp only [Bool.false_eq_true, if_false]
       omega
